@@ -495,8 +495,9 @@ def run(tier):
     for sk in sorted(by_shape):
         states = by_shape[sk]
         sh = states[min(states)]["sh"]
-        # quick: every shape up to 12 iterations except that twin/tricky/offset-2 variants of a structure stop at 3
-        full = thorough or not (sh["twin"] or (sh["names"] == "tricky" and sh["off"] != 1) or (sh["repl"] and sh["off"] == 2))
+        # quick: every shape is unrolled; up to 12 iterations for the shapes imported at stage 1 and the one-component loops,
+        # 3 iterations for the others (thorough: all of them >= 13)
+        full = thorough or (not sh["twin"] and (sh["off"] == 1 or not sh["aux"]))
         if thorough:
             km = maxk if (sh["off"] == 1 and sh["names"] == "plain") else 13
         else:
@@ -521,7 +522,7 @@ def run(tier):
         "looped instances are not executed: their stdout / condition files are written by the harness with the instance's own name",
         "edges into a consumer outside the loop are only required to contain the instance(s) the reference resolves to and to stay "
         "inside the loops (the implementation also keeps edges to earlier condition producers)",
-    ] + ([] if thorough else ["quick tier: twin documents, tricky names at offsets 0/2 and replicated shapes at offset 2 are unrolled 3 times only"])
+    ] + ([] if thorough else ["quick tier: two-component loops imported at stage 0 or 2 and twin documents (except one) are unrolled 3 times only"])
     _summary(chk)
     return chk.finish()
 
